@@ -331,6 +331,16 @@ def run_random(asm, acc, seed, idx, trace=False):
         mp = {n: rng2.choice(pool) + ('%d' % k if k >= 0 else '') for k, n in enumerate(dict.fromkeys(names))}
         items = P.rename_labels(items, mp)
         acc['ctr']['programs_with_non_ascii_label_names'] += 1
+    if idx % 5 == 3 and all(progcheck.is_transfer(it) or not P.label_dependent(it.get('ops') or ([it['val']] if 'val' in it else []))
+                            for it in items if it['k'] in ('inst', 'pseudo', 'data', 'pack')):
+        # labels may be called anything, also what a register is called: in a *target* position a name is a location
+        pool = ['s0', 'a0', 't1', 'sp', 'x12', 'ra', 'fp', 'zero', 'x0', 't6', 'gp', 'a7', 's11', 'x31', 'tp']
+        names = list(dict.fromkeys(it['name'] for it in items if it['k'] == 'label'))
+        rng2 = random.Random('c03-regnames-%d' % idx)
+        rng2.shuffle(pool)
+        if len(names) <= len(pool):
+            items = P.rename_labels(items, dict(zip(names, pool)))
+            acc['ctr']['programs_with_register_named_labels'] += 1
     lines, eol, preseed = presentation(rng, items, idx)
     core.see(acc, 'presentations', ['canonical', 'syntax-variants', 'reused-label-table'][min(idx % 6, 3) if idx % 6 < 3 else 0])
     for compress in (False, True):
